@@ -279,6 +279,11 @@ func TestC11Hostile(t *testing.T) {
 		raw := func(t *rapid.T) {
 			nhostile++
 			desc, o, mb := hostileRaw(t, x, cc.ViaRPC)
+			if o.Slow {
+				St.Class("call_too_slow_for_the_harness_not_judged")
+				cut = true
+				return
+			}
 			if o.Bad() {
 				fail(t, fmt.Sprintf("%s: %v", desc, o))
 			}
